@@ -141,6 +141,11 @@ InstThoroughFilter == [maxlen |-> 2, minqs |-> {0, 20, 30}, samples |-> 2, fm |-
 InstThoroughFilterDeep == [maxlen |-> 3, minqs |-> {0, 20, 30}, samples |-> 2, fm |-> FMQuick, cv |-> SubSeq(CVFilter, 1, 4), th |-> THJoint]
 InstThoroughThresh == [maxlen |-> 4, minqs |-> {20}, samples |-> 2, fm |-> Plain, cv |-> CVSingle, th |-> THThorough]
 InstThoroughThresh3 == [maxlen |-> 5, minqs |-> {20}, samples |-> 3, fm |-> Plain, cv |-> SubSeq(CVSingle, 1, 3), th |-> THQuick]
+(* six plain reads over three samples at one position: the smallest table in which one sample meets only the individual   *)
+(* frequency threshold, another only the individual depth threshold, and a third keeps another allele legitimately       *)
+Q34 == <<3, 4>>
+THMinInd == {Th(Q34, 2, 1, Q0, 0), Th(Q34, 2, 2, Q0, 0), Th(Q2, 2, 1, Q0, 0), Th(Q34, 1, 1, Q0, 0)}
+InstMinInd == [maxlen |-> 6, minqs |-> {20}, samples |-> 3, fm |-> Plain, cv |-> SubSeq(CVSingle, 1, 3), th |-> THMinInd]
 InstTiny == [maxlen |-> 2, minqs |-> {0, 20, 30}, samples |-> 2, fm |-> FMQuick, cv |-> SubSeq(CVFilter, 1, 3), th |-> THJoint]
 
 
